@@ -628,6 +628,32 @@ def World.groupAccept (w : World) (now : Nat) (from_ : Addr) (c : Cand) (h : Pac
   | none => (.err .NoSpaceSessions, r.1)
   | some w' => w'.deliverLast (groupSession from_ c h.plain) h payload
 
+/-- the destination group of a group data message differs from the group of the session it was matched to -/
+def otherGroup (h : PlainHdr) (gid : Nat) : Bool :=
+  match h.dstGroup with | some g => g != gid | none => false
+
+/-- A group *data* message that was matched to an existing (ephemeral) group session passes the
+checks of the creating path: it addresses the session's group and its counter is new to the
+per-sender group counter store (`decode_packet`, fixed code). -/
+def World.groupDataCheck (w : World) (s : Session) (h : PlainHdr) : Option Err × World :=
+  if h.isGroup && !h.isControl then
+    match s.mode with
+    | .group fab gid =>
+      if otherGroup h gid then (some .NoSession, w)
+      else
+        let r := w.gstore.postRecv fab (s.peerNode.getD 0) h.ctr
+        (if r.2 then none else some .Duplicate, { w with gstore := r.1 })
+    | _ => (none, w)
+  else (none, w)
+
+/-- `post_recv` on the session `idx` -/
+def World.deliverAt (w : World) (idx : Nat) (s : Session) (h : PacketHdr) (payload : Bytes) : Outcome × World :=
+  let r := s.postRecv h
+  (match r.1 with
+   | .error e => Outcome.err e
+   | .ok nw => Outcome.ok idx nw h payload,
+   { w with node := w.node.set idx r.2 })
+
 /-- `decode_packet` -/
 def receive (E : Env) (now : Nat) (w0 : World) (from_ : Addr) (dg : Bytes) : Outcome × World :=
   let w := w0.touch now from_ dg
@@ -637,11 +663,10 @@ def receive (E : Env) (now : Nat) (w0 : World) (from_ : Addr) (dg : Bytes) : Out
     match w.node[idx]? with
     | none => (.err .NoSession, w)
     | some s =>
-      let (r, s') := s.postRecv h
-      let w' := { w with node := w.node.set idx s' }
-      match r with
-      | .error e => (.err e, w')
-      | .ok nw => (.ok idx nw h payload, w')
+      let c := w.groupDataCheck s h.plain
+      match c.1 with
+      | some e => (.err e, c.2)
+      | none => c.2.deliverAt idx s h payload
   | .newPlain h payload =>
     match w.add now { addr := from_, peerNode := h.plain.srcNode } with
     | some w' => w'.deliverLast { addr := from_, peerNode := h.plain.srcNode } h payload
